@@ -56,7 +56,11 @@ def showRet : Ret → String
   | .chunks cs => joinSp (s!"replay {cs.length}" :: cs.map showChunk)
   | .panic => "PANIC"
 
-def obs (s : State) (r : Ret) : String := showRet r ++ " | " ++ showState s
+/-- observation of one call: return value, visible state, and which of the two watchdog time stamps
+(`last_chunk_at`, `last_ack_at`) the call refreshed -/
+def obs (op : Op) (s : State) (r : Ret) : String :=
+  let e := stampEffect op r
+  showRet r ++ " | " ++ showState s ++ " ~" ++ (if e.1 then "1" else "0") ++ (if e.2 then "1" else "0")
 
 /-! ### small-scope exhaustive enumeration -/
 
@@ -69,17 +73,18 @@ structure Ghost where
   nextOff : Nat := 0
   pushes : Nat := 0
 
-def apply (f : Facts) (m : OvMode) (s : State) (g : Ghost) : T → State × Ghost × Ret
+def apply (f : Facts) (m : OvMode) (s : State) (g : Ghost) : T → State × Ghost × Ret × Op
   | .op o =>
     let (s', r) := step f m s o
     let g' := match o with
       | .advance _ => { g with nextOff := 0 }
       | _ => g
-    (s', g', r)
+    (s', g', r, o)
   | .push dlen ovh =>
     let body : Bytes := List.replicate (dlen + ovh) (UInt8.ofNat (g.pushes % 256))
-    let (s', r) := step f m s (.pushReplay g.nextOff dlen false body)
-    (s', { nextOff := g.nextOff + dlen, pushes := g.pushes + 1 }, r)
+    let o : Op := .pushReplay g.nextOff dlen false body
+    let (s', r) := step f m s o
+    (s', { nextOff := g.nextOff + dlen, pushes := g.pushes + 1 }, r, o)
 
 def alphaC11 : List T :=
   [.op (.recordSent 1), .op (.recordSent 2), .op (.recordSent 3),
@@ -127,8 +132,8 @@ structure Ctx where
 partial def foldSub (c : Ctx) (s : State) (g : Ghost) (h : UInt64) (depth : Nat) (acc : UInt64) : UInt64 := Id.run do
   let mut acc := acc
   for t in c.alpha do
-    let (s', g', r) := apply c.f c.m s g t
-    let h' := fnvStr h (obs s' r ++ "\n")
+    let (s', g', r, o) := apply c.f c.m s g t
+    let h' := fnvStr h (obs o s' r ++ "\n")
     acc := mix acc h'
     if depth + 1 < c.len then acc := foldSub c s' g' h' (depth + 1) acc
   return acc
@@ -140,8 +145,8 @@ partial def dfs (c : Ctx) (idx : String) (s : State) (g : Ghost) (h : UInt64) (d
   let mut out := out
   let mut i := 0
   for t in c.alpha do
-    let (s', g', r) := apply c.f c.m s g t
-    let h' := fnvStr h (obs s' r ++ "\n")
+    let (s', g', r, o) := apply c.f c.m s g t
+    let h' := fnvStr h (obs o s' r ++ "\n")
     let path' := path ++ "." ++ toString i
     if depth + 1 == c.group && depth + 1 < c.len then
       out := out.push s!"{idx}{path'} {(foldSub c s' g' h' (depth + 1) h').toNat}"
@@ -240,6 +245,24 @@ def concLine (f : Facts) (m : OvMode) (idx : String) (ws : List String) : String
     | _, _, _, _ => idx ++ " bad-op"
   | _ => idx ++ " bad-op"
 
+/-! ### the watchdog scenario (`watchdog <i>`): what the model says the real watchdog thread must have done -/
+
+def showReasonW : Option Nat → String
+  | none => "-"
+  | some r => if r = idleReason then "idle" else toString r
+
+/-- A: idle transfer with some state; B: cancelled with reason 5 before the watchdog runs (visited with a stale
+and with a fresh `is_cancelled`); C, D: never visited with `idle = true` (unregistered / far-future timeout). -/
+def watchdogLine (f : Facts) (m : OvMode) (idx : String) : String :=
+  let setup : List Op := [.setPeer 3, .pushReplay 0 5 false [1, 2, 3, 4, 5], .recordSent 5, .recordAck 0 2]
+  let a0 := run f m (init 8 64) setup
+  let a1 := run f m a0 (watchdogVisit false true ++ watchdogVisit true true)
+  let same := decide ({ a1 with cancelled := a0.cancelled } = a0)
+  let b0 := run f m (init 8 64) [.cancel 5]
+  let b1 := run f m b0 (watchdogVisit false true ++ watchdogVisit true true)
+  let c1 := run f m (init 8 64) (watchdogVisit false false)
+  s!"{idx} watchdog A={showReasonW a1.cancelled}/{if same then "same" else "changed"} B={showReasonW b1.cancelled} C={showReasonW c1.cancelled} D={showReasonW c1.cancelled} reg=ok"
+
 /-! ### line protocol -/
 
 structure St where
@@ -280,12 +303,13 @@ def step (st : St) (ws : List String) : St × String :=
       | some out => (st, out)
       | none => (st, idx ++ " bad-op")
     | _, _ => (st, idx ++ " bad-op")
+  | ["watchdog", idx] => (st, watchdogLine Gen.transferFacts st.mode idx)
   | "conc" :: idx :: rest => (st, concLine Gen.transferFacts st.mode idx rest)
   | _ :: idx :: _ =>
     match parseOp ws with
     | some op =>
       let (s', r) := Repe.Transfer.step Gen.transferFacts st.mode st.s op
-      ({ st with s := s' }, idx ++ " " ++ obs s' r)
+      ({ st with s := s' }, idx ++ " " ++ obs op s' r)
     | none => (st, idx ++ " bad-op")
   | _ => (st, "bad-op")
 
